@@ -69,8 +69,15 @@ void dispatch_resume(dispatch_object_t o) { __verif_event(EV_RELEASE, 0, o._do, 
 void dispatch_suspend(dispatch_object_t o) { __verif_event(EV_RETAIN, 0, o._do, 1, 0); }
 /* dispatch_async(q, ^{B}) is lowered by rule R-async onto these two */
 dispatch_queue_t H_async_q; unsigned H_asyncs;
+#define K_ASYNC 99
+#define K_ASYNC_END 98
+#ifdef H_LOG_ASYNC   /* posted blocks appear in the event log: begin(queue) ... body ... end */
+void __verif_block_begin_dispatch_async(dispatch_queue_t q) { H_async_q = q; H_asyncs++; __verif_event(K_ASYNC, 0, q, 0, 0); }
+void __verif_block_end(void) { __verif_event(K_ASYNC_END, 0, 0, 0, 0); }
+#else
 void __verif_block_begin_dispatch_async(dispatch_queue_t q) { H_async_q = q; H_asyncs++; }
 void __verif_block_end(void) { }
+#endif
 /* ---- system interface as seen from _dispatch_operation_perform */
 #ifdef VERIF_NATIVE
 #define H_ALLOC(n) malloc((n) ? (n) : 1)
@@ -98,3 +105,10 @@ ssize_t write(int fd, const void *buf, size_t len) { return h_syscall(3, fd, buf
 ssize_t pwrite(int fd, const void *buf, size_t len, off_t off) { return h_syscall(4, fd, buf, len, off); }
 int posix_memalign(void **memptr, size_t alignment, size_t size)
 { (void)alignment; H_allocs_io++; H_alloc_size = size; if (ND_BOOL()) return ENOMEM; H_alloc_ptr = H_ALLOC(size); *memptr = H_alloc_ptr; return 0; }
+
+/* statics are NOT zero at the entry of a DFCC harness (they are havocked): every ghost is reset explicitly */
+static inline void h_io_reset(void)
+{
+	H_dn = 0; H_pool_exhausted = 0; H_order_broken = 0; H_creates = 0; H_created_from = 0; H_created_len = 0; H_calls = 0; H_asyncs = 0; H_async_q = 0;
+	H_syscalls = 0; H_allocs_io = 0; H_sys_window_bad = 0; H_errno = 0; H_sys_ret = 0; H_bufpos = 0; _dispatch_data_empty.size = 0;
+}
